@@ -107,6 +107,7 @@ def run(ck):
                 order = spy.orders[-1]
                 idx = pf.non_dominated_set(y, return_mask=False)
                 front, fidx = pf.pareto_front(y, return_idx=True)
+                sfront, sidx = pf.pareto_front(y, sort=True, return_idx=True)
             except Exception as e:  # the functions are total on finite inputs
                 ck.fail("C11|raises|non_dominated_set", f"non_dominated_set raised {type(e).__name__}", {"pts": pts}, repr(e))
                 continue
@@ -128,7 +129,27 @@ def run(ck):
                 ck.fail("C11|pareto_front|pareto_front", "pareto_front is not y[non_dominated_set idx]", case)
             reqs.append({"op": "nds", "pts": [[rat(v) for v in p] for p in pts], "order": order,
                          "mask": [bool(b) for b in mask], "idx": [int(i) for i in idx]})
-            metas.append(("nds", case, mask.tolist(), [int(i) for i in idx]))
+            metas.append(("nds", case, mask.tolist(), [int(i) for i in idx], [int(i) for i in sidx]))
+            if not np.array_equal(sfront, y[sidx]) or sorted(int(i) for i in sidx) != sorted(int(i) for i in idx):
+                ck.fail("C11|pareto_front-sorted|pareto_front", "sorted front is not a reordering of the front", case)
+            if any(tuple(sfront[i]) > tuple(sfront[i + 1]) for i in range(len(sfront) - 1)):
+                ck.fail("C11|pareto_front-sorted-order|pareto_front", "sorted front is not in lexicographic order", case)
+            # is_pareto_efficient: a new vector against the recorded set
+            if n <= 30 and (kind != "lattice" or ck.rng.random() < 0.1):
+                for new in (pts[ck.rng.randrange(n)], [v + ck.rng.choice([-1.0, 0.0, 0.5]) for v in pts[ck.rng.randrange(n)]]):
+                    try:
+                        got = bool(pf.is_pareto_efficient(new, y))
+                    except Exception as e:
+                        ck.fail("C11|raises|is_pareto_efficient", f"{type(e).__name__}", {"pts": pts, "new": new}, repr(e))
+                        continue
+                    ic = {"kind": "ipe", "pts": pts, "new": new}
+                    ck.case(ic, nontrivial=True)
+                    ck.count("is_pareto_efficient:" + str(got))
+                    want = not any(all(a <= b for a, b in zip(r, new)) for r in pts)
+                    if got != want:
+                        ck.fail("C11|is_pareto_efficient|is_pareto_efficient", "answer differs from 'no recorded vector weakly dominates the new one'", ic, {"got": got})
+                    reqs.append({"op": "ipe", "pts": [[rat(v) for v in p] for p in pts], "new": [rat(v) for v in new]})
+                    metas.append(("ipe", ic, got, None, None))
             # ranked
             if n >= 2 and (kind != "lattice" or ck.rng.random() < 0.15):
                 fr = ck.rng.choice(fractions_)
@@ -157,7 +178,7 @@ def run(ck):
                             ck.fail("C11|ranked-front-order|non_dominated_set_ranked",
                                     "a point is chosen although a point dominating it is not", rc, {"chosen": i, "dominator": j})
                 reqs.append({"op": "ranked", "pts": [[rat(v) for v in p] for p in pts], "req": req_n, "orders": rounds})
-                metas.append(("ranked", rc, [bool(b) for b in rmask], [int(i) for i in ridx] if 0 < req_n < n else None))
+                metas.append(("ranked", rc, [bool(b) for b in rmask], [int(i) for i in ridx] if 0 < req_n < n else None, None))
         # pareto_efficient column (maximisation: objectives are negated)
         ncol = ck.pick(40, 300)
         for t in range(ncol):
@@ -195,7 +216,7 @@ def run(ck):
             if sub:
                 reqs.append({"op": "nds", "pts": [[rat(v) for v in p] for p in sub], "order": list(range(len(sub))),
                              "mask": [col[k] for k in ok_rows], "idx": [i for i, k in enumerate(ok_rows) if col[k]]})
-                metas.append(("column", case, None, None))
+                metas.append(("column", case, None, None, None))
     finally:
         pf.np = real_np
         import shutil
@@ -204,8 +225,13 @@ def run(ck):
 
     with ck.driver() as d:
         reps = d.ask_all(reqs)
-    for (kind, case, mask, idx), rep in zip(metas, reps):
-        if kind == "nds":
+    for (kind, case, mask, idx, sidx), rep in zip(metas, reps):
+        if kind == "ipe":
+            if rep["model"] != mask:
+                ck.mismatch(case, {"impl": mask, "model": rep["model"]})
+        elif kind == "nds":
+            if rep["sorted_idx"] != sidx:
+                ck.mismatch(case, {"impl_sorted_idx": sidx, "model_sorted_idx": rep["sorted_idx"]})
             if not rep["spec_model"]:
                 ck.mismatch(case, "model output fails its own verified checker (model/proof out of sync)")
             if rep["model_mask"] != mask or rep["model_idx"] != idx or rep["literal_idx"] != idx:
